@@ -241,6 +241,13 @@ func (ex *Exec) modelled(st *State, ref string, fn *types.Func, recv *Val, args 
 		st.assume("(=> (>= " + x + " 0.0) (and (>= " + r.S + " 0.0) (= (* " + r.S + " " + r.S + ") " + x + ")))")
 		ex.assumption("math.Sqrt: for x >= 0 the result r satisfies r >= 0 and r*r = x (exact reals)")
 		return one(r)
+	case "math.Atan":
+		ex.eng.smt.declFun("uf_atan", "(declare-fun uf_atan (Real) Real)")
+		ex.eng.smt.addFunAx("uf_atan", "(forall ((x Real) (y Real)) (! (=> (<= x y) (<= (uf_atan x) (uf_atan y))) :pattern ((uf_atan x) (uf_atan y))))")
+		ex.eng.smt.addFunAx("uf_atan", "(forall ((x Real)) (! (= (uf_atan (- x)) (- (uf_atan x))) :pattern ((uf_atan x))))")
+		ex.eng.smt.addFunAx("uf_atan", "(and (< 1.2490457 (uf_atan 3.0)) (< (uf_atan 3.0) 1.2490458) (= (uf_atan 0.0) 0.0))")
+		ex.assumption("math.Atan: uninterpreted, monotone, odd, atan(0)=0, atan(3) in (1.2490457, 1.2490458)")
+		return one(&Val{Sh: args[0].Sh, T: r0(), S: "(uf_atan " + args[0].S + ")"})
 	case "math.Floor":
 		return one(&Val{Sh: args[0].Sh, T: r0(), S: "(to_real (to_int " + args[0].S + "))"})
 	case "math.Abs":
